@@ -4,7 +4,9 @@
  *
  * Real code: remove_journal_inode(), release_blocks_proc(), the group-descriptor / superblock counters of
  * lib/ext2fs/blknum.c.  STUB side: the block bitmap is one byte per block (bytemap.h); ext2fs_block_iterate3
- * reports the NJ blocks of the journal inode (symbolic, distinct, inside the file system) to the real callback;
+ * behaves like the real iterator with respect to its flags: it reports the NJ data blocks of the journal inode AND its one
+ * mapping block (indirect / extent-tree block, blockcnt < 0; not reported under BLOCK_FLAG_DATA_ONLY) -- all symbolic,
+ * distinct, inside the file system -- to the real callback;
  * ext2fs_read_inode / ext2fs_write_inode / ext2fs_read_bitmaps / ext2fs_group_desc_csum_set record.
  *
  * Pre-state (consistent file system, arbitrary): in-use set symbolic with the journal's blocks in use, every
@@ -30,12 +32,13 @@
 #ifndef NJ
 #define NJ 3
 #endif
+#define NT (NJ + 1)		/* data blocks + one mapping (indirect / extent-tree) block: jblk[NJ] */
 #define NB (1 + NG * BPG)
 #include "bytemap.h"
 
 struct vf_in {
 	unsigned char inuse[NB];
-	__u32 jblk[NJ];
+	__u32 jblk[NT];
 	__u32 jino, isize, iflags, overhead;
 	__u32 jnl_blocks[17];
 	unsigned char csum;
@@ -48,7 +51,7 @@ static struct ext2_super_block vf_sb;
 static unsigned char vf_gd[NG * 32] __attribute__((aligned(8)));
 static struct vf_bm vf_map;
 static struct ext2_inode vf_written;
-static int vf_nwrite_inode, vf_bad_call, vf_niter;
+static int vf_nwrite_inode, vf_bad_call, vf_niter, vf_iter_flags;
 static __u32 vf_csum_at[NG];
 static unsigned char vf_csum_done[NG];
 
@@ -74,7 +77,8 @@ errcode_t ext2fs_write_inode(ext2_filsys fs, ext2_ino_t ino, struct ext2_inode *
 }
 /* STUB: ext2fs_read_bitmaps(): bitmaps are loaded (the byte map); succeeds */
 errcode_t ext2fs_read_bitmaps(ext2_filsys fs) { (void) fs; return 0; }
-/* STUB: ext2fs_block_iterate3(): reports the NJ blocks of the journal (data blocks; a journal of NJ blocks has no index block) in order */
+/* STUB: ext2fs_block_iterate3(): like the real iterator: the NJ data blocks in order (blockcnt >= 0), then the mapping block that holds
+ * their numbers (blockcnt -1 = BLOCK_COUNT_IND; post-order as without BLOCK_FLAG_DEPTH_TRAVERSE) unless BLOCK_FLAG_DATA_ONLY was asked for */
 errcode_t ext2fs_block_iterate3(ext2_filsys fs, ext2_ino_t ino, int flags, char *block_buf,
 				int (*func)(ext2_filsys fs, blk64_t *blocknr, e2_blkcnt_t blockcnt,
 					    blk64_t ref_blk, int ref_offset, void *priv_data),
@@ -89,6 +93,12 @@ errcode_t ext2fs_block_iterate3(ext2_filsys fs, ext2_ino_t ino, int flags, char 
 		if ((*func)(fs, &b, k, 0, 0, priv_data) & BLOCK_ABORT)
 			break;
 		if (b != IN.jblk[k]) vf_bad_call = 1;	/* READ_ONLY walk */
+	}
+	vf_iter_flags = flags;
+	if (k == NJ && !(flags & BLOCK_FLAG_DATA_ONLY)) {
+		blk64_t b = IN.jblk[NJ];
+		(*func)(fs, &b, BLOCK_COUNT_IND, 0, 0, priv_data);
+		if (b != IN.jblk[NJ]) vf_bad_call = 1;
 	}
 	return 0;
 }
@@ -114,7 +124,7 @@ int main(void)
 	for (p = 0; p < NB; p++)
 		ASSUME(IN.inuse[p] <= 1);
 	/* ASSUME: the journal's blocks are distinct, inside the file system and marked in use (consistent file system) */
-	for (k = 0; k < NJ; k++) {
+	for (k = 0; k < NT; k++) {
 		ASSUME(IN.jblk[k] >= 1 && IN.jblk[k] < NB);
 		for (h = 0; h < k; h++)
 			ASSUME(IN.jblk[h] != IN.jblk[k]);
@@ -178,14 +188,15 @@ int main(void)
 		const unsigned char *w = (const unsigned char *) &vf_written;
 		int nz = 0;
 		PROP(vf_niter == 1, "journal blocks walked once");
+		PROP(vf_iter_flags == BLOCK_FLAG_READ_ONLY, "the walk is asked for ALL blocks of the inode, read-only (flags == BLOCK_FLAG_READ_ONLY)");
 		for (g = 0; g < NG; g++)
 			after[g] = 0;
 		for (p = 1; p < NB; p++) {
 			int isj = 0;
-			for (k = 0; k < NJ; k++)
+			for (k = 0; k < NT; k++)
 				if ((__u32) p == IN.jblk[k])
 					isj = 1;
-			PROP(vf_map.bit[p] == (isj ? 0 : IN.inuse[p]), "exactly the journal's blocks became free");
+			PROP(vf_map.bit[p] == (isj ? 0 : IN.inuse[p]), "exactly the journal's blocks -- data AND mapping metadata -- became free");
 			if (!vf_map.bit[p])
 				after[(p - 1) / BPG]++;
 		}
@@ -196,7 +207,7 @@ int main(void)
 			if (after[g] != pre_free[g])
 				PROP(vf_csum_done[g] && vf_csum_at[g] == after[g], "descriptor checksum recomputed after the last change of a group's count");
 		}
-		PROP(ext2fs_free_blocks_count(&vf_sb) == tot2 && tot2 == total + NJ, "superblock free count == sum == old + released blocks");
+		PROP(ext2fs_free_blocks_count(&vf_sb) == tot2 && tot2 == total + NT, "superblock free count == sum == old + released blocks");
 		for (k = 0; k < (int) sizeof(vf_written); k++)
 			if (w[k]) nz = 1;
 		PROP(!nz, "journal inode written back zeroed");
